@@ -404,6 +404,8 @@ pub fn case(tape: &[u32]) -> CaseOutcome {
                         "(module) @_m { scan \"aXb\" { \"\\\\b\" { print $0 } } }\n",
                         "(module) @_m { scan \"ab\" { \"a\" { print $0 } \"\\\\b\" { print $0 } } }\n",
                         "(module) @_m { scan \"ab\" { \"a|\\\\b\" { print $0 } } }\n",
+                        "(call function: (#identifier) @f) { print @f }\n",
+                        "(module (#pass_statement) @p) @m { node @m.n attr (@m.n) p = @p }\n",
                         "(module) @_m { scan \"x=2\" { \"\\\\b[a-z]*\" { print $0 } \"[0-9]+\" { print $0 } } }\n",
                         "(module) @_m { scan \"ab cd\" { \"[a-z]+\" { scan $0 { \"a\" { } \"\\\\B\" { print $0 } } } \"^\" { } } }\n",
                     ]
